@@ -21,6 +21,9 @@ CFG = {
         "Leptos.Macro.macro_denotes_top",
         # static text after a closed raw-text sibling: siblings are printed independently
         "Leptos.Macro.C18_inert_siblings_independent",
+        # unit-typed blocks and components with spread attributes
+        "Leptos.Macro.C18_unit_denotes_nothing",
+        "Leptos.Macro.C18_spread_names",
         # adding a dynamic part leaves the static parts alone (one-hole contexts)
         "Leptos.Macro.C18_static_parts_stable",
         "Leptos.Macro.C18_static_parts_stable_block",
@@ -85,7 +88,10 @@ CFG = {
             "elements with dynamic attributes/children, <textarea> literals with & < > </textarea> and a leading line feed, the "
             "self-closing syntax <tag …/> on non-void / custom / SVG elements (about half of all childless elements), boolean / "
             "int / float / char LITERAL attribute values, white-space-only and NBSP text (also in <pre>) — each in static and in "
-            "dynamic subtrees, then pseudo-random templates of depth <= 3 (0-3 attributes of 8 forms per element, quoted and unquoted text, "
+            "dynamic subtrees, blocks of unit type ({()} {} {let _ = 1;} {None::<String>} {Vec::<String>::new()}) at every child "
+            "position, the components <Wrap> and <Card> with spread attributes (attr: names of one word / one dash / several "
+            "dashes / aria-* / data-* / first segment = typed attribute function; class: style: attr:class; static, dynamic, "
+            "literal values), text and elements after a closed raw-text sibling, then pseudo-random templates of depth <= 3 (0-3 attributes of 8 forms per element, quoted and unquoted text, "
             "{blocks} only in dynamic subtrees, fragments (possibly empty), comments, components, svg, math in static and dynamic "
             "subtrees alike; 3/5 of the subtrees without dynamic holes). Each shape in three "
             "variants: as written, forced-dynamic twin (every literal a {..} with the same value), one extra dynamic sibling inside "
